@@ -213,8 +213,9 @@ func (d *deepCopier) deepCopyMap(in, out reflect.Value) {
 		return
 	}
 	if mv, ok := d.mapMap[in.Pointer()]; ok && out.CanSet() {
-		// We've seen this map before, let's take advantage of it.
-		out.Set(mv)
+		// We've seen this map before, let's take advantage of it. (It may
+		// have been seen under another defined map type.)
+		out.Set(mv.Convert(out.Type()))
 		return
 	}
 	// Mark this map's backing pointer as handled, so back-references get
